@@ -204,6 +204,11 @@ TABLES = {   # name -> (module, replay script, description of the enumerated spa
     "voting": ("Voting", "harness/replay_voting.py",
                "Voting.tla table: every preference profile of NVoters rankings over NCand candidates, committee sizes 1..NCand-1; "
                "SNTV / Bloc / k-Borda / greedy Chamberlin-Courant as relations; replayed on the policies of multiwinner.py"),
+    "stopconds": ("StopConds", "harness/replay_stopconds.py",
+                  "StopConds.tla table: FitnessSteadiness on every history of 1..MaxMe metaepochs (1-2 generations, fitness 0..MaxFit) x n x "
+                  "dev in {0, 1/2, 1} under exact concretisations; FitnessEvalLimitReached on every per-level evaluation vector (1-3 levels, "
+                  "0..2) x strategy {equal, root, explicit weights, None} x limit 0..5; NoActiveNonrootDemes / AllChildrenStopped on every "
+                  "set of <= 2 children (active, started_at, metaepochs) x tree metaepoch x k"),
     "sprout": ("Sprout", "harness/replay_sprout.py",
                "Sprout.tla tables: DemeLimit (all rank vectors with ties x limits), LevelLimit (pooled candidates of root/A/B x "
                "occupancy incl. more active demes than the limit x L), SkipSameSprout (equal / different seeds of the same / another "
@@ -445,4 +450,16 @@ def growth(tier: str) -> int:
         print(f"OBSERVATION (no listed property): {clause}: {len(vs)} rows disagree with the definition, e.g. {vs[0]['signature']} -> {vs[0]['detail']}")
     if not by:
         print("Voting rules conform to Voting.tla on every row")
+    module, replay, desc = TABLES["stopconds"]
+    st = table_stage("stopconds", module, tier, replay)
+    rep = st.get("replay", {})
+    print(f"StopConds.tla: {st['tlc']['distinct']} states, {st.get('table_rows')} rows, {rep.get('evaluations')} stop-condition calls, "
+          f"laws violated on the definition: {st.get('model_violations', [])}")
+    by = {}
+    for v in rep.get("violations", []):
+        by.setdefault(v["clause"], []).append(v)
+    for clause, vs in sorted(by.items()):
+        print(f"OBSERVATION (no listed property): {clause}: {len(vs)} rows disagree with the definition, e.g. {vs[0]['signature']} -> {vs[0]['detail']}")
+    if not by:
+        print("Shipped stop conditions conform to StopConds.tla on every row")
     return 0
